@@ -1084,9 +1084,11 @@ class MoneyConverter:
             else:
                 raise ValueError(f"Not a valid period: {validity}.")
         elif isinstance(validity, tuple):
-            dt_str = f"{validity[0]:04d}-{validity[1]:02d}-01"
             try:  # verify year and month
-                dt = date.fromisoformat(dt_str)
+                # year and month may be given as strings convertable to int
+                year, month = (int(val) if isinstance(val, str) else val
+                               for val in validity)
+                dt = date.fromisoformat(f"{year:04d}-{month:02d}-01")
             except ValueError:
                 raise ValueError(f"Not a valid year / month: "
                                  f"{validity}.") from None
